@@ -45,7 +45,7 @@ TIERS = {
         "gen": "MC_WalrusBlocks_quick.cfg",
         "defects": ["MC_WalrusBlocks_defect_parser.cfg", "MC_WalrusBlocks_defect_budget0.cfg",
                     "MC_WalrusBlocks_defect_tailinit.cfg"],
-        "known": ["MC_WalrusBlocks_known_iddrift.cfg"],
+        "known": [],
         "max_behaviours": 1500, "simulate": None, "timeout": 600,
     },
     "thorough": {
@@ -54,7 +54,7 @@ TIERS = {
         "gen_extra": ["MC_WalrusBlocks_two.cfg"],
         "defects": ["MC_WalrusBlocks_defect_parser.cfg", "MC_WalrusBlocks_defect_budget0.cfg",
                     "MC_WalrusBlocks_defect_tailinit.cfg"],
-        "known": ["MC_WalrusBlocks_known_iddrift.cfg"],
+        "known": [],
         "max_behaviours": 12000, "simulate": ("MC_WalrusBlocks_sim.cfg", "num=600", "18"), "timeout": 3000,
     },
 }
